@@ -14,6 +14,7 @@ Definition header_ok (p : list N) : bool :=
   let c := unle (firstn 2 (skipn 2 p)) in
   (unle (firstn 2 p) =? magic) && (N.lor c ctrl_mask =? ctrl_mask) && (N.land c ver_mask =? ver1).
 Definition c_verdict (b : list N) : option (option (list message)) :=
+  match b with [] => Some None | _ =>       (* nothing received yet: go on reading (Read is never called with nothing) *)
   match decode_frame b with
   | Accept [] => Some None                      (* m == nil: the loop goes on *)
   | Accept ms => Some (Some ms)
@@ -26,7 +27,7 @@ Definition c_verdict (b : list N) : option (option (list message)) :=
       if (fsize <=? length b)%nat && negb (all_zero (skipn fsize b)) then Some None   (* "unexpected data after the frame" carries the incomplete sentinel *)
       else None
     else None
-  end.
+  end end.
 Definition c_decode_step (buf pt : list N) := (c_verdict (buf ++ pt), buf ++ pt).
 
 (* validateRequests: request tags at top level, every message valid, and the whole list fits one frame *)
